@@ -62,6 +62,29 @@ def directed_cases(seed: int, tier: str) -> typing.List[dict]:
                     "fixed": {"lang": lang, "outdir_spelling": sp, "cwd_rel": CWDS[si % len(CWDS)], "out_rel": OUTS[si % len(OUTS)]},
                 }
             )
+    # one token as member, as namespace and as path component within one run: fields called like the (lookup) roots and like a
+    # nested namespace, all of them names that match a reserved pattern of ONE identifier kind only
+    same_token = {
+        "roots": ["regs", "tools", "memory_map", "str"],
+        "files": {
+            "tools/Block.1.0.dsdl": "uint8 v\n@sealed\n",
+            "memory_map/Page.1.0.dsdl": "uint8 v\n@sealed\n",
+            "str/Chunk.1.0.dsdl": "uint8 v\n@sealed\n",
+            "regs/Alpha.1.0.dsdl": "uint8 tools\nuint8 memory_map\nuint8 str\nuint8 stream\nuint8 atomic_ops\n@sealed\n",
+            "regs/Beta.1.0.dsdl": "tools.Block.1.0 a\nmemory_map.Page.1.0 b\nstr.Chunk.1.0 c\nregs.stream.Deep.1.0 d\nregs.atomic_ops.Deep.1.0 e\n@sealed\n",
+            "regs/stream/Deep.1.0.dsdl": "uint8 v\n@sealed\n",
+            "regs/atomic_ops/Deep.1.0.dsdl": "uint8 v\n@sealed\n",
+        },
+    }
+    for lang in ["c", "cpp", "py"]:
+        out.append(
+            {
+                "label": "directed-same-token-%s" % lang,
+                "dsdl": same_token,
+                "deps": {"regs": ["tools", "memory_map", "str"], "tools": [], "memory_map": [], "str": []},
+                "plan": {"lang": lang, "cwd_rel": CWDS[0], "out_rel": OUTS[0], "outdir_spelling": "abs", "in_spelling": "abs", "root_spelling": None, "roots_order": ["regs", "tools", "memory_map", "str"], "lookup_all": False, "enum_seed": 7, "dirty": False, "support": None},
+            }
+        )
     return out
 
 
@@ -73,24 +96,34 @@ def gen_case(seed: int, index: int, tier: str) -> dict:
 # in-run invariant on the namespace tree (runs inside the forked child)
 
 
-def install_tree_invariants(seams: typing.Any) -> None:
+def install_tree_invariants(seams: typing.Any) -> typing.Callable[[], None]:
     import nunavut.cli.runners as runners
 
     real = runners.build_namespace_tree
 
+    built = []  # type: typing.List[typing.Tuple[typing.Any, list, typing.Any]]
+
     def wrapped(types, root_namespace_dir, output_dir, language_context):  # type: ignore
         root = real(types, root_namespace_dir, output_dir, language_context)
-        seams.enabled = False
-        try:
-            problems = check_tree(root, list(types), language_context)
-        except Exception as ex:  # pylint: disable=broad-except
-            problems = ["exception while checking the tree: %s: %s" % (type(ex).__name__, ex)]
-        finally:
-            seams.enabled = True
-        seams.record("inrun-tree", None, {"n_types": len(types), "problems": problems[:5]})
+        built.append((root, list(types), language_context))
         return root
 
     runners.build_namespace_tree = wrapped
+
+    def after_the_run() -> None:
+        # The model is inspected AFTER the invocation under test has finished: looking at it earlier would call into the code
+        # under test (path lookups, stropping) before the generation does, and so decide what its memos hold when files are made.
+        for root, types, language_context in built:
+            seams.enabled = False
+            try:
+                problems = check_tree(root, types, language_context)
+            except Exception as ex:  # pylint: disable=broad-except
+                problems = ["exception while checking the tree: %s: %s" % (type(ex).__name__, ex)]
+            finally:
+                seams.enabled = True
+            seams.record("inrun-tree", None, {"n_types": len(types), "problems": problems[:5]})
+
+    return after_the_run
 
 
 def check_tree(root: typing.Any, types: list, lctx: typing.Any) -> typing.List[str]:
@@ -427,7 +460,10 @@ def run_case(case: dict, ctx: dict) -> dict:
     if generated_roots and all(set(deps_of(x)) <= generated_roots for x in generated_roots):
         final = snapshot.files_of(snapshot.snapshot(out, with_mtime=False))
         firsts = {p.split("/")[0] for s in created_by_root.values() for p in s}
-        unresolved = sorted(p for p in all_refs if p.split("/")[0] in firsts and p not in final)
+        # (a reference is "ours" if it points below a directory some run created, or if it is spelled like the file of a type -
+        # <dir>/<Short>_<major>_<minor><ext> - wherever it points: every involved root has been generated by now)
+        type_like = re.compile(r"^(?!nunavut/).+/[A-Za-z_]\w*_\d+_\d+(\.\w+)+$")
+        unresolved = sorted(p for p in all_refs if (p.split("/")[0] in firsts or type_like.match(p)) and p not in final)
         if plan.get("support") == "never":
             unresolved = [p for p in unresolved if nnvg.sig_kind(p) != "support"]
         if all_refs:
